@@ -205,9 +205,28 @@ Definition ratio_divide_m (n1 d1 n2 d2 : Z) : option (Z * Z) :=
 Definition ratio_equal_m (n1 d1 n2 d2 : Z) : option bool := Some ((n1 =? n2) && (d1 =? d2)).
 Definition ratio_not_equal_m (n1 d1 n2 d2 : Z) : option bool :=
   do e <- ratio_equal_m n1 d1 n2 d2; Some (negb e).
-Definition ratio_cmp_m (rel : Z -> Z -> bool) (n1 d1 n2 d2 : Z) : option bool :=
-  do a <- ck (n1 * d2); do b <- ck (n2 * d1); Some (rel a b).
-Definition ratio_less_m := ratio_cmp_m Z.ltb.
-Definition ratio_less_equal_m := ratio_cmp_m Z.leb.
-Definition ratio_greater_m := ratio_cmp_m Z.gtb.
-Definition ratio_greater_equal_m := ratio_cmp_m Z.geb.
+(* detail::ratio_less_impl(n1, d1, n2, d2): floor quotient / remainder of truncating / and % *)
+Definition floor_qr (n d : Z) : option (Z * Z) :=
+  do q <- cdiv n d;
+  let r := Z.rem n d in
+  if r <? 0 then do r' <- ck (r + d); do q' <- ck (q - 1); Some (q', r') else Some (q, r).
+Fixpoint ratio_less_loop (fuel : nat) (n1 d1 n2 d2 : Z) : option bool :=
+  match fuel with
+  | O => None
+  | S f =>
+      do x1 <- floor_qr n1 d1;
+      do x2 <- floor_qr n2 d2;
+      let '(q1, r1) := x1 in
+      let '(q2, r2) := x2 in
+      if negb (q1 =? q2) then Some (q1 <? q2)
+      else if (r1 =? 0) || (r2 =? 0) then Some ((r1 =? 0) && negb (r2 =? 0))
+      else ratio_less_loop f d2 r2 d1 r1
+  end.
+Definition ratio_less_m (n1 d1 n2 d2 : Z) : option bool := ratio_less_loop 200 n1 d1 n2 d2.
+(* ratio_less_equal = not ratio_less<R2, R1>; ratio_greater = ratio_less<R2, R1>;
+   ratio_greater_equal = not ratio_less<R1, R2> *)
+Definition ratio_less_equal_m (n1 d1 n2 d2 : Z) : option bool :=
+  do b <- ratio_less_m n2 d2 n1 d1; Some (negb b).
+Definition ratio_greater_m (n1 d1 n2 d2 : Z) : option bool := ratio_less_m n2 d2 n1 d1.
+Definition ratio_greater_equal_m (n1 d1 n2 d2 : Z) : option bool :=
+  do b <- ratio_less_m n1 d1 n2 d2; Some (negb b).
